@@ -13,6 +13,7 @@ import (
 
 	"connectrpc.com/conformance/internal"
 	conformancev1 "connectrpc.com/conformance/internal/gen/proto/go/connectrpc/conformance/v1"
+	"connectrpc.com/conformance/internal/tracer"
 )
 
 // VerifC12Line is one message the code under test sent to its printer.
@@ -91,14 +92,21 @@ type VerifC12Obs struct {
 	Stderr string
 }
 
-func VerifC12NewServer() *VerifC12Server { return verifC12NewServer(false) }
+func VerifC12NewServer() *VerifC12Server { return verifC12NewServer(false, false) }
+
+// VerifC12NewServerOpts: stderr as VerifC12NewServerStderr; traced: the handler is wrapped the
+// way createServer wraps it when the server was given a tracer - tracer.TracingHandler AROUND
+// referenceServerChecks, so the checks see the tracer's request (clone, traced body).
+func VerifC12NewServerOpts(stderr, traced bool) *VerifC12Server {
+	return verifC12NewServer(stderr, traced)
+}
 
 // VerifC12NewServerStderr is VerifC12NewServer with the printer the real process uses:
 // internal.NewPrinter around the stderr stream (run() in server.go), here a buffer. What the
 // checks report is then only observable the way the runner observes it: as bytes of that stream.
-func VerifC12NewServerStderr() *VerifC12Server { return verifC12NewServer(true) }
+func VerifC12NewServerStderr() *VerifC12Server { return verifC12NewServer(true, false) }
 
-func verifC12NewServer(stderr bool) *VerifC12Server {
+func verifC12NewServer(stderr, traced bool) *VerifC12Server {
 	s := &VerifC12Server{p: &verifC12Printer{}}
 	var printer internal.Printer = s.p
 	if stderr {
@@ -112,6 +120,9 @@ func verifC12NewServer(stderr bool) *VerifC12Server {
 		w.WriteHeader(http.StatusOK)
 	})
 	s.handler = referenceServerChecks(inner, printer)
+	if traced {
+		s.handler = tracer.TracingHandler(s.handler, &tracer.Tracer{})
+	}
 	return s
 }
 
